@@ -201,6 +201,61 @@ func populate(dir string) error {
 	return nil
 }
 
+// treeSig summarises the temp-dir tree (names, modes, sizes, mtimes, link target). A case that
+// leaves the signature unchanged did not modify the tree, which is then reused by the next case
+// (creating files is by far the most expensive part of a case); otherwise it is rebuilt.
+func treeSig(dir string) string {
+	var sb strings.Builder
+	for _, d := range []string{".", "d0", "d0/sub", "big"} {
+		es, err := os.ReadDir(filepath.Join(dir, d))
+		fmt.Fprintf(&sb, "%s:%v\n", d, err)
+		for _, e := range es {
+			fi, err := e.Info()
+			if err != nil {
+				fmt.Fprintf(&sb, " %s:%v\n", e.Name(), err)
+				continue
+			}
+			sz := fi.Size()
+			if fi.IsDir() {
+				sz = 0
+			}
+			fmt.Fprintf(&sb, " %s %v %d %d\n", e.Name(), fi.Mode(), sz, fi.ModTime().UnixNano())
+		}
+	}
+	l, err := os.Readlink(filepath.Join(dir, "l0"))
+	fmt.Fprintf(&sb, "l0->%s %v", l, err)
+	return sb.String()
+}
+
+var (
+	curDir string
+	curSig string
+)
+
+// acquireDir returns a pristine populated temp directory.
+func acquireDir() (string, error) {
+	if curDir != "" {
+		return curDir, nil
+	}
+	caseSeq++
+	d := filepath.Join(evid.WorkDir(), fmt.Sprintf("t%d", caseSeq))
+	os.RemoveAll(d)
+	if err := os.Mkdir(d, 0o700); err != nil {
+		return "", err
+	}
+	populate(d)
+	curDir, curSig = d, treeSig(d)
+	return d, nil
+}
+
+// releaseDir keeps the directory for the next case only if the case left it untouched.
+func releaseDir() {
+	if curDir != "" && treeSig(curDir) != curSig {
+		os.RemoveAll(curDir)
+		curDir = ""
+	}
+}
+
 func freePort() (int, error) {
 	l, err := net.Listen("tcp", "127.0.0.1:0")
 	if err != nil {
@@ -217,13 +272,11 @@ func setup(c *Case) (*world, error) {
 	if err != nil {
 		return nil, err
 	}
-	caseSeq++
-	w := &world{c: c, dir: filepath.Join(evid.WorkDir(), fmt.Sprintf("t%d", caseSeq))}
-	os.RemoveAll(w.dir)
-	if err := os.Mkdir(w.dir, 0o700); err != nil {
+	dir, err := acquireDir()
+	if err != nil {
 		return nil, err
 	}
-	populate(w.dir)
+	w := &world{c: c, dir: dir}
 	var lastErr error
 	for attempt := 0; attempt < 5; attempt++ {
 		mc := wazero.NewModuleConfig().WithName("").WithArgs(guestArgs...).
@@ -253,7 +306,7 @@ func setup(c *Case) (*world, error) {
 		w.prefix()
 		return w, nil
 	}
-	os.RemoveAll(w.dir)
+	releaseDir()
 	return nil, fmt.Errorf("instantiate: %v", lastErr)
 }
 
@@ -264,7 +317,7 @@ func (w *world) close() {
 	for _, c := range w.conns {
 		c.Close()
 	}
-	os.RemoveAll(w.dir)
+	releaseDir()
 }
 
 func (w *world) call(name string, args ...uint64) (uint32, wz.Outcome) {
